@@ -116,6 +116,18 @@ def closure(cell):
             apply(q, op)
         return q
 
+    # other quantities exist too: before anything is read from the quantity under test, quantities of EVERY dimension with the same magnitudes
+    # (so also with the same raw numbers) are read in their own units - what one quantity was asked must not answer for another
+    from mc.ref import units as _R
+    for dname, us in _R.DIMENSIONS.items():
+        for un in us:
+            for mm in (m, 1.0, 3.0):
+                try:
+                    other = U(un)(mm)
+                    for vn in us:
+                        other >> U(vn)
+                except Exception:   # noqa  (value not admissible in that unit)
+                    pass
     q0 = u0(m)
     raw = bits(q0.raw_value)
     table = {u.name: bits(q0 >> u) for u in units}
